@@ -95,7 +95,7 @@ func TreeFor(class string, c int64) []xfer.FileSpec {
 	case "prefixSiblings":
 		return []xfer.FileSpec{d("logs"), f("logs.txt", 3), d("img"), f("img2/x", c), d("a/cache"), f("a/cache-old/y", 1), d("d1"), d("d10"), f("z", 2), d("z-dir"), d("z.d")}
 	case "dotdotNames":
-		return []xfer.FileSpec{f("notes..txt", 4), f("a..b/c...d", c+2), f("...", 1), f("x/..y", 3)}
+		return []xfer.FileSpec{f("notes..txt", 4), f("a..b/c...d", c+2), f("...", 1), f("x/..y", 3), f("rel-1../notes.txt", 2), f("..../x", 1), f("v2../sub../z..", c)}
 	case "deepNest":
 		return []xfer.FileSpec{f("a/b/c/d/e/f/g/deep.bin", 2*c), d("a/b/c/void"), f("a/k1", c), f("a/k8", 8*c), f("a/b/zero", 0)}
 	}
